@@ -51,15 +51,15 @@ func (server *Server) registerCoreExecutors() {
 	})
 
 	server.RegisterExexutor("PING", func(conn *Conn, cmd string, args Arguments) (*Message, error) {
-		arg := ""
-		var err error
 		if msg, _ := args.Next(); msg != nil {
-			arg, err = msg.String()
+			arg, err := msg.String()
 			if err != nil {
 				return nil, err
 			}
+			// PING with a message answers the message, even if it is empty.
+			return server.systemCommandHandler.Echo(conn, arg)
 		}
-		return server.systemCommandHandler.Ping(conn, arg)
+		return server.systemCommandHandler.Ping(conn, "")
 	})
 
 	server.RegisterExexutor("ECHO", func(conn *Conn, cmd string, args Arguments) (*Message, error) {
